@@ -379,6 +379,9 @@ impl<'a> DataTelegram<'a> {
                 } else if l1 < 3 {
                     log::debug!("Length is too short: {}", l1);
                     return Some(Err(()));
+                } else if buffer[0] != crate::consts::SD2 {
+                    log::debug!("Repeated start delimiter is wrong: 0x{:02x}", buffer[0]);
+                    return Some(Err(()));
                 }
                 (l1 - 3, usize::from(l1) + 6)
             }
